@@ -264,6 +264,13 @@ void MinimumTerminalSpanningTree::buildHyperedgeTreeToRoot(VertInf *currVert,
             // Note if we have an extra dummy vertex for connecting
             // to possible connection pins.
             currentNode->isPinDummyEndpoint = true;
+            if (prevNode && prevVert &&
+                    (prevVert == currVert->m_orthogonalPartner))
+            {
+                // The dummy vertex was reached through its orthogonal
+                // partner, a copy of it at the same position.
+                prevNode->isPinDummyEndpoint = true;
+            }
         }
 
         prevNode = currentNode;
